@@ -294,6 +294,17 @@ func (s *Session) Mail(from string, opts *smtp.MailOptions) error {
 	s.msgLock.Lock()
 	defer s.msgLock.Unlock()
 
+	if s.delivery != nil {
+		// go-smtp does not reject MAIL inside of an open transaction, and
+		// starting a second delivery here would leak the first one together
+		// with its limit permits.
+		return &smtp.SMTPError{
+			Code:         503,
+			EnhancedCode: smtp.EnhancedCode{5, 5, 1},
+			Message:      "Nested MAIL command",
+		}
+	}
+
 	if !s.endp.deferServerReject {
 		// Will initialize s.msgCtx.
 		msgID, err := s.startDelivery(s.sessionCtx, from, *opts)
